@@ -357,6 +357,9 @@ Definition chop (n : nat) (s : string) : string := String.substring 0 (String.le
 Definition page_text (v : pageval) : string :=
   match v with PInt z => itoa z | PStr s => s end.
 
+Definition sort_fields (m : list (str * list str)) : list (str * list str) :=
+  isort (fun a b => String.ltb (fst a) (fst b)) m.
+
 (** [label_json]: the label's JSON string content, as json.Marshal prints it
     (an oracle input, like the filter) *)
 Definition url_string (u : url) (label_json : str) : string :=
@@ -366,7 +369,7 @@ Definition url_string (u : url) (label_json : str) : string :=
     map (fun kv =>
            chop 3 ("fields%5B" ++ query_escape (fst kv) ++ "%5D="
                    ++ fold_right (fun f acc => query_escape f ++ "%2C" ++ acc) "" (isort String.ltb (snd kv))))
-        (isort (fun a b => String.ltb (fst a) (fst b)) (p_fields p)) in
+        (sort_fields (p_fields p)) in
   let filt := match p_filter p with
               | FPFilter m => ["filter=" ++ query_escape m]
               | FPLabel l => if String.eqb l "" then [] else ["filter=" ++ query_escape label_json]
